@@ -167,6 +167,14 @@ class Gen:
                     f.write(text)
                 if not service and not dep:
                     avail.append(('.'.join(ns + [short]), major, minor))
+                # another major version of the same type with an unrelated body (different dependencies)
+                if not pid and r.random() < 0.2:
+                    major2 = major + r.randint(1, 3)
+                    text2, dep2 = self.body(avail, union=(r.random() < union_p))
+                    with open(os.path.join(d, '%s.%d.%d.dsdl' % (short, major2, 0)), 'w', encoding='utf-8') as f:
+                        f.write(text2)
+                    if not dep2:
+                        avail.append(('.'.join(ns + [short]), major2, 0))
         return roots
 
 
